@@ -32,6 +32,8 @@ func init() {
 			"plus unrepresentable ones (NaN/Inf, non-string keys, cycles, unsupported types) that must make encode fail; each is encoded, the output validated and decoded by encoding/json and CPython json, " +
 			"and read back with json.decode. document cases: documents from an RFC 8259 grammar (all whitespace placements, every escape, surrogate pairs, number forms, duplicate keys, nesting<=200), " +
 			"each either as generated or with one named single-token/byte corruption, decoded with and without default=. " +
+			"integer grid cases: every ±(2^k±2^j) for k=1..200, j in {0,7,15,16,31,32,63,64} and ±(m*2^w+low) for word-boundary m/low patterns (w=32,64,128), |x|<=2^200, judged against math/big and the decimal text itself " +
+			"(json.decode(s) must be the int with BigInt()==b and str==s and re-encode to s; json.encode(MakeBigInt(b)) must be the decimal integer b and decode back to b), and again inside containers with both references. " +
 			"distinct = distinct canonical value (values) or distinct document bytes (documents); non-trivial = not a bare null/true/false and not empty",
 		Assumptions: []string{
 			"Go encoding/json: json.Valid decides RFC 8259 grammar validity; Decoder.UseNumber keeps number tokens verbatim; duplicate object keys resolve last-wins",
@@ -61,6 +63,9 @@ func finish(ev map[string]any) (string, bool) {
 	need("docs_invalid_judged", 1000)
 	need("default_checks", 1000)
 	need("python_docs_compared", 1000)
+	need("int_grid_values", 5000)
+	need("int_grid_decode_exact", 1)
+	need("int_grid_encode_exact", 1)
 	if cn["reference_split"] > 0 {
 		bad = append(bad, fmt.Sprintf("the references disagreed among themselves on %d documents (see cover group reference_split)", cn["reference_split"]))
 	}
@@ -143,6 +148,13 @@ func run(c *driver.Ctx) {
 		} else {
 			e.docCase(c.Rand())
 		}
+	}
+	// integer grid (constant list, the same in both tiers); appended last so that earlier case indices keep their meaning
+	for i, n := 0, intGridCases(); i < n; i++ {
+		if !c.Take() {
+			continue
+		}
+		e.intGridCase(i, c.Rand())
 	}
 }
 
